@@ -187,6 +187,15 @@ func numKey(v reflect.Value) string {
 	return ""
 }
 
+// c20Fanout: mostly 0-2 children, sometimes a wide slice (5-20) so that slices grow past several capacity boundaries
+// while references inside them are still pending.
+func c20Fanout(c *fw.Ctx) int {
+	if c.Rng.Intn(6) == 0 {
+		return 5 + c.Rng.Intn(16)
+	}
+	return c.Rng.Intn(3)
+}
+
 func c20BuildA(c *fw.Ctx, n int) (root *c20N, desc string, cyc, shared bool) {
 	nodes := make([]*c20N, n)
 	for i := range nodes {
@@ -213,7 +222,7 @@ func c20BuildA(c *fw.Ctx, n int) (root *c20N, desc string, cyc, shared bool) {
 			nd.P = nodes[j]
 			desc += fmt.Sprintf("%d.P>%d ", i, j)
 		}
-		for k := c.Rng.Intn(3); k > 0; k-- {
+		for k := c20Fanout(c); k > 0; k-- {
 			if c.Rng.Intn(6) == 0 {
 				nd.S = append(nd.S, nil)
 				desc += fmt.Sprintf("%d.S>nil ", i)
@@ -255,7 +264,7 @@ func c20BuildB(c *fw.Ctx, n int) (root *c20B, desc string, cyc, shared bool) {
 			cyc = true
 			desc += fmt.Sprintf("%d.Next>back ", i)
 		}
-		k := c.Rng.Intn(3)
+		k := c20Fanout(c)
 		if c.Idx < 6 && i == 0 {
 			k = 1
 		}
